@@ -1094,6 +1094,10 @@ class Exec:
                 return None
         if attr in ('sort', 'reverse', 'insert', 'pop', 'remove', 'clear'):
             self.events.append(('mutate', lst.id, attr, args, kwargs))
+            if attr == 'sort' and concrete and len(lst.items) > 1:
+                # the order after the sort is not known on terms: no element keeps a position a rule could take for the original one
+                before = tuple(lst.items)
+                lst.items = [T('sorted-item', (i, before, tuple(args), tuple(kwargs))) for i in range(len(before))]
             if attr == 'pop' and len(args) <= 1 and lst.items and not lst.opaque_tail and not lst.tail and lst.kind == 'list' \
                     and all(type(a) is int for a in args) and (not args or -len(lst.items) <= args[0] < len(lst.items)):
                 return lst.items.pop(*args)
@@ -1208,6 +1212,8 @@ class Exec:
 
     def inline(self, target, recv, args, kwargs, consumer=None):
         """Interpret a package function in place."""
+        if isinstance(target, FuncInfo):
+            INTERPRETED.add(target.fq)
         node0 = target.node if isinstance(target, (FuncInfo, _Closure)) else target
         if consumer is None and self.engine.inline_generators == 'lazy' and \
                 any(isinstance(n, (ast.Yield, ast.YieldFrom)) for n in ast.walk(node0) if n is not node0):
@@ -1737,6 +1743,9 @@ class _NotConstant(Exception):
     pass
 
 
+INTERPRETED = set()        # functions of the analysed package interpreted so far in this process (reported in the evidence)
+
+
 class Engine:
     """Configuration of one analysis: oracle and hooks, then `paths(fn, env)`."""
 
@@ -1812,6 +1821,8 @@ class Engine:
     def paths(self, fn, env=None, recv=None, args=(), kwargs=()):
         """All paths of `fn` (FuncInfo or ast.FunctionDef).  `env` pre-binds parameters; missing ones become symbols."""
         node = fn.node if isinstance(fn, FuncInfo) else fn
+        if isinstance(fn, FuncInfo):
+            INTERPRETED.add(fn.fq)
         out = []
         stack = [[]]
         seen = set()
